@@ -335,6 +335,7 @@ func Explore(r *eng.Run, scs []*Scenario, opt Options) {
 		}
 		total.merge(st)
 	}
+	stopPool()
 	r.Eval(total.Execs)
 	r.States(total.Points + total.Execs)
 	r.Transitions(total.Points)
@@ -345,6 +346,38 @@ func Explore(r *eng.Run, scs []*Scenario, opt Options) {
 	r.Set("divergences", total.Divergences)
 	hz := total.Verdicts["horizon"]
 	r.Set("horizon_hits", hz)
+}
+
+// worker is one persistent exploration subprocess (reused across scenarios).
+type worker struct {
+	cmd   *exec.Cmd
+	stdin interface{ Write([]byte) (int, error); Close() error }
+	rd    *bufio.Reader
+}
+
+var pool []*worker
+
+func startPool(nw int) {
+	for len(pool) < nw {
+		cmd := exec.Command(os.Getenv("VERIF_BIN"), "-worker")
+		cmd.Stderr = os.Stderr
+		cmd.Env = append(os.Environ(), "GOMAXPROCS=2")
+		stdin, _ := cmd.StdinPipe()
+		stdout, _ := cmd.StdoutPipe()
+		if err := cmd.Start(); err != nil {
+			fmt.Fprintln(os.Stderr, "cannot start worker:", err)
+			os.Exit(2)
+		}
+		pool = append(pool, &worker{cmd: cmd, stdin: stdin, rd: bufio.NewReaderSize(stdout, 1<<20)})
+	}
+}
+
+func stopPool() {
+	for _, w := range pool {
+		w.stdin.Close()
+		w.cmd.Wait()
+	}
+	pool = nil
 }
 
 func runWorkers(nw int, items []item, st *stats) {
@@ -360,24 +393,16 @@ func runWorkers(nw int, items []item, st *stats) {
 	if nw > len(items) {
 		nw = len(items)
 	}
-	for w := 0; w < nw; w++ {
+	startPool(nw)
+	for wi := 0; wi < nw; wi++ {
 		wg.Add(1)
+		w := pool[wi]
 		go func() {
 			defer wg.Done()
-			cmd := exec.Command(os.Getenv("VERIF_BIN"), "-worker")
-			cmd.Stderr = os.Stderr
-			cmd.Env = append(os.Environ(), "GOMAXPROCS=2")
-			stdin, _ := cmd.StdinPipe()
-			stdout, _ := cmd.StdoutPipe()
-			if err := cmd.Start(); err != nil {
-				fmt.Fprintln(os.Stderr, "cannot start worker:", err)
-				os.Exit(2)
-			}
-			rd := bufio.NewReaderSize(stdout, 1<<20)
 			for it := range q {
 				b, _ := json.Marshal(it)
-				stdin.Write(append(b, '\n'))
-				line, err := rd.ReadBytes('\n')
+				w.stdin.Write(append(b, '\n'))
+				line, err := w.rd.ReadBytes('\n')
 				if err != nil {
 					fmt.Fprintf(os.Stderr, "worker died on item %s: %v\n", b, err)
 					os.Exit(2)
@@ -391,8 +416,6 @@ func runWorkers(nw int, items []item, st *stats) {
 				st.merge(ws)
 				mu.Unlock()
 			}
-			stdin.Close()
-			cmd.Wait()
 		}()
 	}
 	wg.Wait()
